@@ -152,6 +152,7 @@ def bookkeeping(rep, g, N, effs):
 def check(P, rep):
     c = P.crates[CN]
     storage_classes(P, rep, 'C03.R2', CN, {'Epoch': 'instance', 'SignersHashByEpoch': 'persistent', 'EpochBySignersHash': 'persistent', 'LastRotationTimestamp': 'instance'})
+    require_overflow_checks(P, rep, 'C03.R2')
     if 'rotate_signers' in c.entries:
         g = P.graph(CN, 'rotate_signers')
         N, proof, bypass = g.P(1), g.P(2), g.P(3)
